@@ -155,7 +155,7 @@ func (V *Verifier) specType(name string, pkg *types.Package) types.Type {
 		return tySeq
 	case "event":
 		return tyEvent
-	case "ref":
+	case "ref", "error", "any":
 		return tyRef
 	case "set":
 		return tySet
